@@ -99,7 +99,12 @@ impl<const D: usize> ToroidalSpace<D> {
         let wrapped = v_f64.rem_euclid(period);
         // `rem_euclid` can round up to `period` for tiny negative inputs; keep `[0, L)` half-open.
         let wrapped = if wrapped >= period { 0.0 } else { wrapped };
-        <T as NumCast>::from(wrapped)
+        let out = <T as NumCast>::from(wrapped)?;
+        // Narrowing to `T` (e.g. `f32`) can round up onto `period` again.
+        if out.to_f64().is_some_and(|o| o >= period) {
+            return Some(T::zero());
+        }
+        Some(out)
     }
 }
 
